@@ -615,4 +615,262 @@ example : claimState none (.present true (.toks [.parsed [goodSigner (headerMsg 
 example : claimState none .absent expiredCert
     { verifyTrust := true, tsTrust := true, now := 5000 } = .invalid := by decide
 
+/-! ### the header that is looked at -/
+
+/-- **`get_cose_tst_info` takes the first `sigTst2`/`sigTst` entry in header order**; later entries
+(even a `sigTst2` after a `sigTst`) are never looked at. -/
+theorem headerOf_first (v2 : Bool) (c : Container) (rest : List (Bool × Container)) :
+    headerOf ((v2, c) :: rest) = .present v2 c := rfl
+
+/-- With both kinds present the unprotected-header order decides: a bound `sigTst2` token behind an
+unusable `sigTst` entry gives no time, the same two entries in the other order do. -/
+example : (validateCoseTst (headerOf [(false, .unparsable),
+      (true, .toks [.parsed [goodSigner (headerMsg true)]])]) true).1 = none := by decide
+example : (validateCoseTst (headerOf [(true, .toks [.parsed [goodSigner (headerMsg true)]]),
+      (false, .unparsable)]) true).1 = some 1001 := by decide
+
+/-- The statement says a token must match "the claim signature it accompanies". -/
+def HeaderTokenCoversSignature : Prop := ∀ v2, (headerMsg v2).data = .sigCbor
+
+/-- **False for the legacy `sigTst` header**: its token covers the claim bytes (COSE payload) inside
+the countersignature structure, not the signature — the token stays valid when the same claim is
+signed again (replayed by the harness: `transplant/v1`, class `v1-token-survives-resigning`). -/
+theorem header_token_covers_signature_false : ¬ HeaderTokenCoversSignature := by
+  intro h; have := h false; simp [headerMsg] at this
+
+theorem header_token_covers_signature_partial : (headerMsg true).data = .sigCbor := rfl
+
+theorem v1_header_covers_payload : headerMsg false = ⟨true, .payload⟩ := rfl
+
+/-! ### the displayed signing time -/
+
+/-- **`SignatureInfo.time` is only ever the time of a bound header token** (validated without the
+trust part): exactly one token, a `SignerInfo` of it bound to the message this header kind covers. -/
+theorem displayed_time_only_if_bound (h : Header) (t : Int) (hd : displayTime h = some t) :
+    ∃ v2 tok ss s, h = .present v2 (.toks [tok]) ∧ tok = .parsed ss ∧ s ∈ ss ∧
+      Bound (headerMsg v2) s ∧ t = effTime s := by
+  obtain ⟨v2, tok, rfl, hr⟩ := (header_time_iff h false t).1 hd
+  obtain ⟨ss, s, rfl, hs, hb, ht⟩ := timestamp_used_only_if_bound tok (headerMsg v2) false t hr
+  exact ⟨v2, _, ss, s, rfl, rfl, hs, hb, ht⟩
+
+/-! ### time-stamp assertions -/
+
+/-- **The time of a time-stamp assertion is used iff** it is the earliest of the times of the
+tokens that `verify_time_stamp` accepts over the raw COSE signature (whatever their order). -/
+theorem ext_time_iff (toks : List Token) (vt : Bool) (t : Int) :
+    extTime toks vt = some t ↔
+      (∃ tok ∈ toks, (verifyTimeStamp tok assertionMsg vt).result = .ok t) ∧
+        ∀ tok ∈ toks, ∀ u, (verifyTimeStamp tok assertionMsg vt).result = .ok u → t ≤ u := by
+  induction toks generalizing t with
+  | nil => simp [extTime]
+  | cons a rest ih =>
+    unfold extTime
+    cases ha : (verifyTimeStamp a assertionMsg vt).result with
+    | error e =>
+      simp only
+      rw [ih t]
+      constructor
+      · rintro ⟨⟨tok, hm, hr⟩, hmin⟩
+        refine ⟨⟨tok, List.mem_cons_of_mem _ hm, hr⟩, ?_⟩
+        intro tok' hm' u hu
+        rcases List.mem_cons.1 hm' with rfl | hm''
+        · rw [ha] at hu; cases hu
+        · exact hmin tok' hm'' u hu
+      · rintro ⟨⟨tok, hm, hr⟩, hmin⟩
+        refine ⟨?_, fun tok' hm' u hu => hmin tok' (List.mem_cons_of_mem _ hm') u hu⟩
+        rcases List.mem_cons.1 hm with rfl | hm'
+        · rw [ha] at hr; cases hr
+        · exact ⟨tok, hm', hr⟩
+    | ok x =>
+      cases hr : extTime rest vt with
+      | none =>
+        simp only
+        have hnone : ∀ tok ∈ rest, ∀ u, (verifyTimeStamp tok assertionMsg vt).result ≠ .ok u := by
+          intro tok hm u hu
+          -- an accepted token in `rest` would give `extTime rest` a value
+          have key : ∀ (l : List Token), (∃ q ∈ l, ∃ w, (verifyTimeStamp q assertionMsg vt).result = .ok w) →
+              ∃ w, extTime l vt = some w := by
+            intro l
+            induction l with
+            | nil => rintro ⟨q, hq, _⟩; cases hq
+            | cons c l' ihl =>
+              rintro ⟨q, hq, w, hw⟩
+              unfold extTime
+              cases hc : (verifyTimeStamp c assertionMsg vt).result with
+              | ok y =>
+                cases hl : extTime l' vt with
+                | some z => exact ⟨_, rfl⟩
+                | none => exact ⟨_, rfl⟩
+              | error e =>
+                simp only
+                rcases List.mem_cons.1 hq with rfl | hq'
+                · rw [hc] at hw; cases hw
+                · exact ihl ⟨q, hq', w, hw⟩
+          obtain ⟨w, hw⟩ := key rest ⟨tok, hm, u, hu⟩
+          rw [hr] at hw; cases hw
+        constructor
+        · intro h; cases h
+          refine ⟨⟨a, List.mem_cons_self .., ha⟩, ?_⟩
+          intro tok hm u hu
+          rcases List.mem_cons.1 hm with rfl | hm'
+          · rw [ha] at hu; cases hu; exact Int.le_refl _
+          · exact absurd hu (hnone tok hm' u)
+        · rintro ⟨⟨tok, hm, hr'⟩, _⟩
+          rcases List.mem_cons.1 hm with rfl | hm'
+          · rw [ha] at hr'; cases hr'; rfl
+          · exact absurd hr' (hnone tok hm' t)
+      | some y =>
+        simp only
+        obtain ⟨⟨toky, hmy, hry⟩, hminy⟩ := (ih y).1 hr
+        constructor
+        · intro h
+          have ht : t = if y < x then y else x := by cases h; rfl
+          by_cases hlt : y < x
+          · rw [if_pos hlt] at ht; subst ht
+            refine ⟨⟨toky, List.mem_cons_of_mem _ hmy, hry⟩, ?_⟩
+            intro tok hm u hu
+            rcases List.mem_cons.1 hm with rfl | hm'
+            · rw [ha] at hu; cases hu; omega
+            · exact hminy tok hm' u hu
+          · rw [if_neg hlt] at ht; subst ht
+            refine ⟨⟨a, List.mem_cons_self .., ha⟩, ?_⟩
+            intro tok hm u hu
+            rcases List.mem_cons.1 hm with rfl | hm'
+            · rw [ha] at hu; cases hu; exact Int.le_refl _
+            · have := hminy tok hm' u hu; omega
+        · rintro ⟨⟨tok, hm, hr'⟩, hmin⟩
+          have h1 : t ≤ x := hmin a (List.mem_cons_self ..) x ha
+          have h2 : t ≤ y := hmin toky (List.mem_cons_of_mem _ hmy) y hry
+          have h3 : t = x ∨ y ≤ t := by
+            rcases List.mem_cons.1 hm with rfl | hm'
+            · rw [ha] at hr'; cases hr'; exact Or.inl rfl
+            · exact Or.inr (hminy tok hm' t hr')
+          by_cases hlt : y < x
+          · rw [if_pos hlt]; congr 1; omega
+          · rw [if_neg hlt]; congr 1; omega
+
+/-- **A time-stamp assertion gives the signing time only if one of its tokens is bound to the raw
+claim signature** (imprint = the signature bytes, CMS signature and message-digest attribute ok). -/
+theorem ext_time_only_if_bound (toks : List Token) (vt : Bool) (t : Int)
+    (h : extTime toks vt = some t) :
+    ∃ tok ∈ toks, ∃ ss s, tok = .parsed ss ∧ s ∈ ss ∧ Bound assertionMsg s ∧ t = effTime s := by
+  obtain ⟨⟨tok, hm, hr⟩, _⟩ := (ext_time_iff toks vt t).1 h
+  obtain ⟨ss, s, rfl, hs, hb, ht⟩ := timestamp_used_only_if_bound tok assertionMsg vt t hr
+  exact ⟨_, hm, ss, s, rfl, hs, hb, ht⟩
+
+/-- **A rejected assertion token is reported**: the store pass appends its informational
+`timeStamp.*` entry to the validation log (since the repair of store.rs; before it the entries went
+into a dropped scratch log — finding `assertion-ts-failure-unreported`, fixed). -/
+theorem rejected_assertion_token_reported (toks : List Token) (vt : Bool) (tok : Token)
+    (hm : tok ∈ toks) (e : Err) (he : (verifyTimeStamp tok assertionMsg vt).result = .error e) :
+    ∃ c, IsTsInfo c ∧ info c ∈ extLog toks vt := by
+  induction toks with
+  | nil => cases hm
+  | cons a rest ih =>
+    unfold extLog
+    rcases List.mem_cons.1 hm with rfl | hm'
+    · obtain ⟨c, hc, hin⟩ := (rejected_token_reported tok assertionMsg vt e he).1
+      refine ⟨c, hc, List.mem_append.2 (Or.inl ?_)⟩
+      rw [he]; exact hin
+    · obtain ⟨c, hc, hin⟩ := ih hm'
+      exact ⟨c, hc, List.mem_append.2 (Or.inr hin)⟩
+
+/-- An accepted assertion token logs nothing in the store pass, and never `timeStamp.trusted`. -/
+theorem ext_log_no_trusted (toks : List Token) (vt : Bool) : succ cTsTrusted ∉ extLog toks vt := by
+  induction toks with
+  | nil => simp [extLog]
+  | cons a rest ih =>
+    unfold extLog
+    intro hm
+    rcases List.mem_append.1 hm with hm | hm
+    · cases hr : (verifyTimeStamp a assertionMsg vt).result with
+      | ok t => rw [hr] at hm; cases hm
+      | error e => rw [hr] at hm; exact (rejected_token_reported a assertionMsg vt e hr).2 hm
+    · exact ih hm
+
+example : extTime [.parsed [goodSigner assertionMsg]] true = some 1001 := by decide
+example : extTime [.parsed [goodSigner (headerMsg true)]] true = none := by decide
+example : extLog [.parsed [goodSigner (headerMsg true)]] true = [info cMismatch] := by decide
+/-- the earliest accepted time is kept, in whatever order the store meets the tokens -/
+example : extTime [.parsed [{ goodSigner assertionMsg with attrTime := some 1500 }],
+    .parsed [goodSigner assertionMsg], .unparsable] true = some 1001 := by decide
+example : extTime [.unparsable, .parsed [goodSigner assertionMsg],
+    .parsed [{ goodSigner assertionMsg with attrTime := some 1500 }]] true = some 1001 := by decide
+
+/-! ### a rejected header token, lifted to the claim's log -/
+
+/-- **Without a time-stamp assertion** a header that carries tokens but yields no time is reported
+in the claim's validation log. -/
+theorem header_rejection_reported_claim (v2 : Bool) (l : List Token) (s : Signing) (cfg : Cfg)
+    (hl : l ≠ []) (h : (validateCoseTst (.present v2 (.toks l)) cfg.tsTrust).1 = none) :
+    ∃ c, IsTsInfo c ∧ info c ∈ claimLog none (.present v2 (.toks l)) s cfg := by
+  obtain ⟨c, hc, hin⟩ := header_rejection_reported v2 l cfg.tsTrust hl h
+  refine ⟨c, hc, ?_⟩
+  unfold claimLog coseLog
+  simp only [usedTime, List.mem_append]
+  exact Or.inl (Or.inl (Or.inl hin))
+
+/-- The statement's "otherwise a time-stamp failure is reported", for header tokens, whatever else
+supplies the time. -/
+def RejectedHeaderTokenReported : Prop :=
+  ∀ (ext : Option Int) (v2 : Bool) (tok : Token) (s : Signing) (cfg : Cfg) (e : Err),
+    (verifyTimeStamp tok (headerMsg v2) cfg.tsTrust).result = .error e →
+    ∃ c, IsTsInfo c ∧ info c ∈ claimLog ext (.present v2 (.toks [tok])) s cfg
+
+theorem ts_info_codes_distinct (c : Code) (h : IsTsInfo c) :
+    c ≠ C04.cTrusted ∧ c ≠ C04.cUntrusted ∧ c ≠ cExpired ∧ c ≠ cCredInvalid ∧
+      c ≠ C04.cInsideValidity ∧ c ≠ C04.cSigValidated ∧ c ≠ cSigMismatch := by
+  rcases h with rfl | rfl | rfl | rfl <;> decide
+
+/-- **False when a time-stamp assertion supplies the time**: `verify_cose` then does not look at the
+header at all (`Some(tst_info) => …` skips `validate_cose_tst_info`), so a header token for another
+message stays unreported. Replayed by the harness (`ext+wrongmsg-hdr`, class
+`hdr-token-unreported-with-assertion-ts`). -/
+theorem rejected_header_token_reported_false : ¬ RejectedHeaderTokenReported := by
+  intro h
+  have hr : (verifyTimeStamp (.parsed [goodSigner (headerMsg false)]) (headerMsg true) true).result
+      = .error .invalidData := by decide
+  obtain ⟨c, hc, hin⟩ := h (some 1000) true (.parsed [goodSigner (headerMsg false)]) expiredCert
+    { verifyTrust := true, tsTrust := true, now := 5000 } .invalidData hr
+  have hl : claimLog (some 1000) (.present true (.toks [.parsed [goodSigner (headerMsg false)]]))
+      expiredCert { verifyTrust := true, tsTrust := true, now := 5000 }
+      = [succ C04.cTrusted, succ C04.cInsideValidity, succ C04.cSigValidated] := by decide
+  rw [hl] at hin
+  obtain ⟨h1, _, _, _, h5, h6, _⟩ := ts_info_codes_distinct c hc
+  simp only [List.mem_cons, info, succ, Prod.mk.injEq, List.mem_nil_iff, or_false] at hin
+  rcases hin with ⟨_, hk⟩ | ⟨_, hk⟩ | ⟨_, hk⟩ <;> cases hk
+
+/-- … true without one (`header_rejection_reported_claim` for the single-token header). -/
+theorem rejected_header_token_reported_partial (v2 : Bool) (tok : Token) (s : Signing) (cfg : Cfg)
+    (e : Err) (he : (verifyTimeStamp tok (headerMsg v2) cfg.tsTrust).result = .error e) :
+    ∃ c, IsTsInfo c ∧ info c ∈ claimLog none (.present v2 (.toks [tok])) s cfg := by
+  apply header_rejection_reported_claim v2 [tok] s cfg (by simp)
+  simp [validateCoseTst, he]
+
+/-! ### expired signing certificate, with the assertion time tied to its tokens -/
+
+/-- **An expired (or not yet valid) signing certificate is accepted only with a bound, valid
+time-stamp inside its validity** — stated down to the token: either a token of a time-stamp
+assertion bound to the raw claim signature, or (no assertion time) the single header token bound to
+the message its header kind covers; the token's effective time lies inside the validity period. -/
+theorem expired_cert_needs_bound_timestamp (toks : List Token) (xvt : Bool) (h : Header)
+    (s : Signing) (cfg : Cfg) (hc : cfg.certCheck = true) (hv : s.versionOk = true)
+    (hnow : ¬ (s.notBefore ≤ cfg.now ∧ cfg.now ≤ s.notAfter))
+    (hlog : failE cExpired ∉ claimLog (extTime toks xvt) h s cfg) :
+    ∃ t, s.notBefore ≤ t ∧ t ≤ s.notAfter ∧
+      ((∃ tok ∈ toks, ∃ ss si, tok = .parsed ss ∧ si ∈ ss ∧ Bound assertionMsg si ∧ t = effTime si) ∨
+       (extTime toks xvt = none ∧ ∃ v2 tok ss si, h = .present v2 (.toks [tok]) ∧ tok = .parsed ss ∧
+          si ∈ ss ∧ Bound (headerMsg v2) si ∧ t = effTime si)) := by
+  obtain ⟨t, _, h1, h2, hsrc⟩ := expired_cert_needs_valid_timestamp (extTime toks xvt) h s cfg hc hv hnow hlog
+  refine ⟨t, h1, h2, ?_⟩
+  rcases hsrc with hx | ⟨hx, v2, tok, rfl, hr⟩
+  · exact Or.inl (ext_time_only_if_bound toks xvt t hx)
+  · obtain ⟨ss, si, rfl, hs, hb, ht⟩ := timestamp_used_only_if_bound tok (headerMsg v2) cfg.tsTrust t hr
+    exact Or.inr ⟨hx, v2, _, ss, si, rfl, rfl, hs, hb, ht⟩
+
+example : claimState (extTime [.parsed [goodSigner assertionMsg]] true) .absent expiredCert
+    { verifyTrust := true, tsTrust := true, now := 5000 } = .trusted := by decide
+example : claimState (extTime [.parsed [goodSigner (headerMsg true)]] true) .absent expiredCert
+    { verifyTrust := true, tsTrust := true, now := 5000 } = .invalid := by decide
+
 end C2pa.C36
